@@ -18,6 +18,8 @@ def models(quick):
     if quick:
         return [ModelRun("C03_two", letters=[0, 1], maxlen=2, maxn=2, maxn2=2, ks=[1, 2], engines=["symdel"],
                          invariants=INVS),
+                ModelRun("C03_two_ham", letters=[0, 1], maxlen=2, maxn=2, maxn2=2, ks=[1, 2], engines=["symdel"], modes=["hamming"],
+                         invariants=INVS),
                 ModelRun("C03_two_hash", letters=[0, 1], maxlen=2, maxn=2, maxn2=2, ks=[1], engines=["hash"],
                          invariants=INVS + ("BallExact",)),
                 ModelRun("C03_two_hash2", letters=[0, 1], maxlen=2, maxn=1, maxn2=2, ks=[2], engines=["hash"],
@@ -25,6 +27,8 @@ def models(quick):
                 ModelRun("C03_hist", letters=[0, 1], maxlen=1, maxn=2, maxn2=2, ks=[1], engines=["symdel", "hash"],
                          maxlookups=2, invariants=INVS, properties=("IndexStableA",))]
     return [ModelRun("C03_two", letters=[0, 1], maxlen=3, maxn=2, maxn2=2, ks=[1, 2], engines=["symdel", "hash"],
+                     invariants=INVS),
+            ModelRun("C03_two_ham", letters=[0, 1], maxlen=3, maxn=2, maxn2=2, ks=[1, 2], engines=["symdel", "hash"], modes=["hamming"],
                      invariants=INVS),
             # (hash_based enumerates the 20-letter edit ball on the real code: radius 3 costs seconds per query, so k <= 2 there)
             ModelRun("C03_two3", letters=[0, 1, 2], maxlen=2, maxn=2, maxn2=2, ks=[1, 2, 3], engines=["symdel"], invariants=INVS),
@@ -64,7 +68,8 @@ def replay_histories(ctx, res, letters, max_groups=None):
             try:
                 kq = doc["inp"]["k"]
                 ks_seen.add(kq)
-                ret = db.lookup(qs) if eng == "symdel" else db.lookup(qs, max_edits=kq)
+                mkw = dict(custom_distance="hamming") if mode == "hamming" else {}
+                ret = db.lookup(qs, **mkw) if eng == "symdel" else db.lookup(qs, max_edits=kq, **mkw)
                 got = sorted(map(tuple, nc.norm_triplets(ret, mode)))
             except Exception as e:   # noqa: BLE001
                 ctx.violation(classify(doc["inp"], "raised"), f"{eng} db lookup raised {type(e).__name__}: {e} history={hist}",
